@@ -1,0 +1,20 @@
+//go:build verif
+
+package stockholm
+
+// Property C19 (author C19b): the Stockholm writer only reads the alignment it is given (see io/fasta for the scheme;
+// here the iterator is Iterate, which hands the literal a string copy of each row).
+
+//@ func WriteAlignment
+//@   props C19
+//@   requires al != nil && rowsok(al)
+//@   modifies nothing
+//@   loop 1 in (*seqbag).Iterate
+//@     invariant stop == false
+//@     decreases nrows(al) - $i
+
+//@ func WriteAlignment$1
+//@   props C19
+//@   inline
+//@   ensures result == false
+//@   modifies gf(buflen; buf), gfa(bufdata; buf)
